@@ -58,33 +58,38 @@ theorem C18_tryGet_refines (st : Stack) (path : List Sc) : st.tryGet path = spec
           have : objContains d k.render = true := by simpa [h] using hc.symm
           simp [this]
 
-/-- `find` never reaches its final `panic!` when the first key is bound in the object — the only
-way `stack.rs` calls it: the one-element prefix always resolves. -/
-theorem find_no_panic (d : Obj) (k : Sc) (p : List Sc) (h : objContains d k.render = true) :
-    find (.obj d) (k :: p) = ofOpt (tryFind (.obj d) (k :: p)) := by
+/-- `find` never reaches its final `panic!` (after the `fix:` commit that lets the search for a
+resolvable prefix go down to the empty prefix, the value itself): it returns what `try_find` finds,
+or an error — for every value and every path, also when the first key does not exist. -/
+theorem find_eq_ofOpt (v : V) (path : List Sc) : find v path = ofOpt (tryFind v path) := by
   unfold find
-  cases hf : tryFind (.obj d) (k :: p) with
-  | some v => rfl
+  cases hf : tryFind v path with
+  | some r => rfl
   | none =>
     simp only [ofOpt]
-    have hk : (tryFind (.obj d) [k]).isSome = true := by
-      have := objGet_isSome_iff_contains d k.render
-      simp only [tryFind, augGet]
-      cases hg : objGet d k.render with
-      | some w => simp
-      | none => simp [hg, h] at this
-    cases p with
-    | nil => simp [hf] at hk
-    | cons q ps =>
-      have : (List.range' 1 ((k :: q :: ps).length - 1)).any
-          (fun c => (tryFind (.obj d) ((k :: q :: ps).take ((k :: q :: ps).length - c))).isSome) = true := by
+    cases path with
+    | nil => simp [tryFind] at hf
+    | cons k p =>
+      have : (List.range' 1 (k :: p).length).any
+          (fun c => (tryFind v ((k :: p).take ((k :: p).length - c))).isSome) = true := by
         rw [List.any_eq_true]
-        refine ⟨ps.length + 1, ?_, ?_⟩
+        refine ⟨(k :: p).length, ?_, ?_⟩
         · simp only [List.mem_range', List.length_cons]
-          exact ⟨ps.length, by omega, by omega⟩
-        · have : (k :: q :: ps).length - (ps.length + 1) = 1 := by simp
-          rw [this]; simpa using hk
+          exact ⟨p.length, by omega, by omega⟩
+        · simp [tryFind]
       rw [if_pos this]
+
+/-- the form used by the frames (`stack.rs` only calls `find` when the first key is bound) -/
+theorem find_no_panic (d : Obj) (k : Sc) (p : List Sc) (_h : objContains d k.render = true) :
+    find (.obj d) (k :: p) = ofOpt (tryFind (.obj d) (k :: p)) :=
+  find_eq_ofOpt _ _
+
+/-- the code before that commit did panic on a missing first key (`find(&obj, &["missing"])`) -/
+theorem find_old_counterexample :
+    (let path := [Sc.str "missing".toList]
+     let n := path.length
+     (List.range' 1 (n - 1)).any (fun c => (tryFind (.obj []) (path.take (n - c))).isSome)) = false := by
+  decide
 
 /-- **The failing and the optional lookup always agree**: `get` succeeds with `v` exactly when
 `try_get` returns `v`, fails with an error exactly when `try_get` returns nothing, and never
